@@ -108,6 +108,8 @@ PROPS["C09"] = {
         # arbitrary bytes x read partition against a reference parser (coverage-guided)
         # the server's start response through the batch runner at the size limit, in several chunkings (C11 fakes)
         {"name": "C09ServerResponse", "pkg": CC, "test": "TestVerifC09ServerResponse", "kind": "enum"},
+        # the reference client's exported Run on a truncated standard input (binary and JSON), told to stop or not
+        {"name": "C09ClientStdin", "pkg": RC, "test": "TestVerifC09ClientStdin", "kind": "enum"},
         {"name": "C09Fuzz", "pkg": INT, "test": "FuzzVerifC09Stream", "kind": "fuzz", "fuzz_target": "FuzzVerifC09Stream",
          "only_tiers": ["thorough"], "fuzztime": {"thorough": "60s"}, "workers": 16, "timeout": {"thorough": 600}},
     ],
